@@ -712,4 +712,19 @@ def cliRun (L : Lib) : Action → M Run
     | none => return .out (errOut "Error: ")
     | some r => return renderDump L fmt r
 
+/-! ### the dump modes over the model of the real DumpDataDir (second review, point 11) -/
+
+/-- the file system as `DumpDataDir(dir, …)` sees it: `filepath.Join(dir, "global", "1262")` … = `dir/<relative path>` -/
+def under (fs : Bytes → Option Bytes) (dir : Bytes) : Bytes → Option Bytes := fun p => fs (dir ++ 47 :: p)
+
+/-- a library record whose `DumpDataDir` is the model of the real function (catalog parsers, filters, join, row reader `rr`,
+Go map order `π`) on the file system `fs`; the other calls as in `L0` -/
+def libOn (L0 : Lib) (rr : RowReader) (π : MapOrder TableInfo) (fs : Bytes → Option Bytes) : Lib :=
+  { L0 with dumpDataDir := fun dir opts => Model.dumpDataDir rr π (under fs dir) opts }
+
+/-- what the end of main() does with the result of the library call -/
+def finish (L : Lib) (fmt : Format) : Option Spec.DumpResult → Run
+  | none => .out (errOut "Error: ")
+  | some r => renderDump L fmt r
+
 end PgVerif.Model.CliRender
